@@ -331,3 +331,81 @@ func SortedKeys[V any](mp map[string]V) []string {
 	sort.Strings(out)
 	return out
 }
+
+// FamilyWorld draws a world from a small set of model families on which the
+// engines' fast paths (weight-2 userset/TTU, recursive userset/TTU) are
+// offered by the planner, with generated tuples; the generic generator reaches
+// these shapes only rarely.
+func FamilyWorld(t *rapid.T, o Opts) World {
+	this := func() *m.Rewrite { return &m.Rewrite{Kind: m.This} }
+	user := m.Restriction{Type: "user"}
+	var types []m.TypeDef
+	types = append(types, m.TypeDef{Name: "user"})
+	wild := chance(t, "famWildcard", 30)
+	userRestr := []m.Restriction{user}
+	if wild {
+		userRestr = append(userRestr, m.Restriction{Type: "user", Wildcard: true})
+	}
+	switch rapid.IntRange(0, 5).Draw(t, "family") {
+	case 0: // weight-2 userset
+		types = append(types,
+			m.TypeDef{Name: "group", Relations: []m.Relation{{Name: "r0", Rewrite: this(), Restr: userRestr}}},
+			m.TypeDef{Name: "doc", Relations: []m.Relation{{Name: "r0", Rewrite: this(), Restr: []m.Restriction{user, {Type: "group", Rel: "r0"}}}}})
+	case 1: // weight-2 TTU
+		types = append(types,
+			m.TypeDef{Name: "folder", Relations: []m.Relation{{Name: "r0", Rewrite: this(), Restr: userRestr}}},
+			m.TypeDef{Name: "doc", Relations: []m.Relation{
+				{Name: "parent", Rewrite: this(), Restr: []m.Restriction{{Type: "folder"}}},
+				{Name: "r0", Rewrite: &m.Rewrite{Kind: m.Union, Children: []*m.Rewrite{this(), {Kind: m.TTU, Tupleset: "parent", Rel: "r0"}}}, Restr: []m.Restriction{user}}}})
+	case 2: // recursive userset
+		types = append(types, m.TypeDef{Name: "group", Relations: []m.Relation{{Name: "r0", Rewrite: this(), Restr: append([]m.Restriction{{Type: "group", Rel: "r0"}}, userRestr...)}}})
+	case 3: // recursive TTU
+		types = append(types, m.TypeDef{Name: "folder", Relations: []m.Relation{
+			{Name: "parent", Rewrite: this(), Restr: []m.Restriction{{Type: "folder"}}},
+			{Name: "r0", Rewrite: &m.Rewrite{Kind: m.Union, Children: []*m.Rewrite{this(), {Kind: m.TTU, Tupleset: "parent", Rel: "r0"}}}, Restr: userRestr}}})
+	case 4: // weight-2 userset under an exclusion / intersection
+		op := m.Difference
+		if chance(t, "famIntersection", 50) {
+			op = m.Intersection
+		}
+		types = append(types,
+			m.TypeDef{Name: "group", Relations: []m.Relation{{Name: "r0", Rewrite: this(), Restr: userRestr}}},
+			m.TypeDef{Name: "doc", Relations: []m.Relation{
+				{Name: "r0", Rewrite: this(), Restr: []m.Restriction{user, {Type: "group", Rel: "r0"}}},
+				{Name: "r1", Rewrite: this(), Restr: []m.Restriction{user, {Type: "group", Rel: "r0"}}},
+				{Name: "r2", Rewrite: &m.Rewrite{Kind: op, Children: []*m.Rewrite{{Kind: m.Computed, Rel: "r0"}, {Kind: m.Computed, Rel: "r1"}}}}}})
+	default: // recursive userset reached through a TTU, with a second userset restriction
+		types = append(types,
+			m.TypeDef{Name: "group", Relations: []m.Relation{
+				{Name: "r0", Rewrite: this(), Restr: append([]m.Restriction{{Type: "group", Rel: "r0"}, {Type: "group", Rel: "r1"}}, userRestr...)},
+				{Name: "r1", Rewrite: this(), Restr: []m.Restriction{user}}}},
+			m.TypeDef{Name: "doc", Relations: []m.Relation{
+				{Name: "parent", Rewrite: this(), Restr: []m.Restriction{{Type: "group"}}},
+				{Name: "r0", Rewrite: &m.Rewrite{Kind: m.TTU, Tupleset: "parent", Rel: "r0"}}}})
+	}
+	mo := &m.Model{Types: types}
+	if o.Conditions && chance(t, "famCond", 35) {
+		c := condTemplates()[rapid.IntRange(0, 2).Draw(t, "famCondIdx")]
+		mo.Conds = []m.Condition{c}
+		// attach the condition to one user restriction as an extra alternative
+		for ti := range mo.Types {
+			for ri := range mo.Types[ti].Relations {
+				r := &mo.Types[ti].Relations[ri]
+				if len(r.Restr) > 0 && r.Restr[0].Type == "user" && !r.Restr[0].Wildcard && chance(t, "famCondHere", 50) {
+					r.Restr = append(r.Restr, m.Restriction{Type: "user", Cond: c.Name})
+				}
+			}
+		}
+	}
+	v, l := Tuples(t, mo, o)
+	return World{Model: mo, Tuples: v, Left: l}
+}
+
+// AnyWorld draws from the generic generator or, in a third of the cases, from
+// the fast-path families.
+func AnyWorld(t *rapid.T, o Opts) World {
+	if chance(t, "useFamily", 35) {
+		return FamilyWorld(t, o)
+	}
+	return GenWorld(t, o)
+}
